@@ -282,7 +282,17 @@ class Ctx:
                 idx = pos if pos >= 0 else len(args) - 1
                 if idx < len(args) and args[idx].get("p", {}).get("local") == local and not args[idx]["p"].get("proj"):
                     atom = fmt % self.expr(parent, args[0])
-                    res = [d | {atom} for d in (res or [set()])]
+                    alts = None
+                    if fmt.startswith("is_some("):
+                        # `x.filter(p).map(..)`, `a.zip(b).map(..)`: the receiver state read through the combinator
+                        s_p, _ = self.sym(parent)
+                        recv = sym.strip_transparent(s_p.operand(args[0]))
+                        at = (("call", "core::option::Option::<T>::is_some", (recv,), ()), fmt.endswith("=True"))
+                        alts = sym.predicate_alternatives(parent.crate, at)
+                    if alts:
+                        res = [d | {sym.atom_str(sym.normalise_atom(x, y)[0] if isinstance(y, bool) else x, sym.normalise_atom(x, y)[1] if isinstance(y, bool) else y, s_p) for (x, y) in alt} for d in (res or [set()]) for alt in alts]
+                    else:
+                        res = [d | {atom} for d in (res or [set()])]
         return [d for d in res if d] or None
 
     @staticmethod
@@ -541,12 +551,17 @@ class Ctx:
                     row = sym.strip_transparent(s.rvalue(tuples[o]["r"]))
                     dnf = []
                     for cs in tc:
-                        d = set()
+                        ds = [set()]
                         for (e, v) in cs:
                             e2 = sym.strip_transparent(fold(_ra._subst_closure(e, cl[2], [row])))
                             a2 = sym.normalise_atom(e2, v) if isinstance(v, bool) else (e2, v)
-                            d.add(sym.atom_str(a2[0], a2[1], s))
-                        dnf.append(d)
+                            # a private predicate of the crate reads as its definition
+                            alts = sym.predicate_alternatives(body.crate, a2) if isinstance(a2[1], bool) else None
+                            if alts:
+                                ds = [d | {sym.atom_str(x, y, s) for (x, y) in alt} for d in ds for alt in alts][:16]
+                            else:
+                                ds = [d | {sym.atom_str(a2[0], a2[1], s)} for d in ds]
+                        dnf.extend(ds)
                     out.append(([(x.get("p") or {}).get("local") for x in tuples[o]["r"]["ops"]], dnf))
         return out
 
